@@ -547,6 +547,7 @@ int main(int argc, char **argv)
 	else if (pair_mode) vk_call_mode = VC_POISON_REGS | VC_STACK;
 	else if (!strcmp(prop, "C19")) vk_call_mode = VC_POISON_REGS;
 	if (ref_run_kats(0)) { fprintf(stderr, "reference KATs failed\n"); return 2; }
+	if (vk_want_wtrap) vk_wtrap_enable();
 	vk_slot_init(&s_in, "in", 16384, 1); vk_slot_init(&s_in2, "in2", 16384, 1);
 	vk_slot_init(&s_out, "out", 16384, 0); vk_slot_init(&s_ctx, "ctx", 16384, 0);
 	vk_slot_init(&s_dig, "digest", 4096, 0); vk_slot_init(&s_dig2, "digest2", 4096, 0);
